@@ -250,9 +250,19 @@ class Engine:
             while isinstance(k, tuple) and k and isinstance(k[0], tuple) and len(k[0]) == 2 and k[0][0] == fk and isinstance(k[0][1], int):
                 return k[0][1]
             return None
+        # (a merge created at an inner join can have become the converged loop-head value itself:
+        #  `n = if c { n + 1 } else { n }` -- those stay, with the operands they accumulated)
+        live = set()
+        for h in heads:
+            hs = instates.get(h)
+            if hs is None: continue
+            for v in hs.store.values():
+                if isinstance(v, tuple):
+                    for x in walk(v):
+                        if x[0] == 'phi': live.add(x)
         for p in list(self.phi_ops):
             b = of_frame(p)
-            if b is not None and b not in heads:
+            if b is not None and b not in heads and p not in live:
                 del self.phi_ops[p]; self.phi_gate.pop(p, None)
         new_in = {0: st0}
         for h in heads:
